@@ -346,14 +346,16 @@ pub struct BatchOpts {
     pub budget_s: f64,
 }
 
-#[derive(Default)]
+#[derive(Default, Serialize, Deserialize)]
 struct Agg {
     runs: u64,
     steps: u64,
     switches: u64,
-    sim_nanos: u128,
+    sim_nanos: u64,
     preempted_runs: u64,
     distinct: BTreeSet<u64>,
+    #[serde(default)]
+    found: Vec<FoundJ>,
     strategies: BTreeMap<String, u64>,
     probes: BTreeMap<String, u64>,
     faults: BTreeMap<String, u64>,
@@ -363,6 +365,17 @@ struct Agg {
     harness_errors: Vec<String>,
     max_steps_seen: u64,
     panics_seen: u64,
+}
+
+#[derive(Clone, Debug, Serialize, Deserialize)]
+pub struct FoundJ {
+    pub run: u64,
+    pub plan: Value,
+    pub preemptions: Vec<PreemptJ>,
+    pub faults: Vec<FaultDecision>,
+    pub violation: Violation,
+    pub strategy: String,
+    pub sched_seed: u64,
 }
 
 pub struct FoundViolation {
@@ -393,95 +406,146 @@ pub fn plan_for(scn: &dyn DynScenario, seed: u64, run: u64, tier: Tier) -> Value
     scn.plan_json(&mut r, tier)
 }
 
-/// Explore: returns process exit code.
+/// Drain crossbeam-epoch garbage so that no deferred destructor of this run executes inside a
+/// later run (which would perturb that run's schedule). Called from a non-simulated thread.
+pub fn flush_epoch() {
+    for _ in 0..64 {
+        crossbeam_epoch::pin().flush();
+    }
+}
+
+fn read_stop(rundir: &std::path::Path) -> u64 {
+    let mut m = u64::MAX;
+    if let Ok(rd) = std::fs::read_dir(rundir) {
+        for e in rd.flatten() {
+            let n = e.file_name().to_string_lossy().to_string();
+            if n.starts_with("stop.") {
+                if let Ok(s) = std::fs::read_to_string(e.path()) {
+                    if let Ok(v) = s.trim().parse::<u64>() {
+                        m = m.min(v);
+                    }
+                }
+            }
+        }
+    }
+    m
+}
+
+/// Child process: runs indices offset, offset+stride, ... sequentially, one simulation at a time.
+pub fn worker_main(scn: &'static dyn DynScenario, opts: &BatchOpts, offset: u64, stride: u64, rundir: &std::path::Path) -> i32 {
+    let t0 = Instant::now();
+    let mut a = Agg::default();
+    let mut run = offset;
+    let mut since_check = 0u32;
+    let mut stop_at = u64::MAX;
+    while run < opts.max_runs {
+        since_check += 1;
+        if since_check >= 8 || stop_at != u64::MAX {
+            since_check = 0;
+            stop_at = read_stop(rundir);
+        }
+        if run > stop_at {
+            break;
+        }
+        if t0.elapsed().as_secs_f64() > opts.budget_s && stop_at == u64::MAX {
+            break;
+        }
+        let plan = plan_for(scn, opts.seed, run, opts.tier);
+        let sched = sched_for(scn, opts.seed, run);
+        let rep = scn.execute_json(&plan, &sched);
+        flush_epoch();
+        a.runs += 1;
+        *a.strategies.entry(sched.strategy.name()).or_insert(0) += 1;
+        if let FaultMode::Random { rate_pm, .. } = &sched.faults {
+            *a.fault_rate_runs.entry(format!("rate_pm={}", rate_pm)).or_insert(0) += 1;
+        }
+        for f in &rep.faults {
+            *a.faults.entry(f.kind.clone()).or_insert(0) += 1;
+        }
+        for (k, v) in &rep.counters {
+            *a.counters.entry(k.clone()).or_insert(0) += v;
+        }
+        let mut preempts = vec![];
+        if let Some(sim) = &rep.sim {
+            a.steps += sim.steps;
+            a.switches += sim.switches;
+            a.sim_nanos += sim.sim_nanos;
+            a.max_steps_seen = a.max_steps_seen.max(sim.steps);
+            a.panics_seen += sim.panics.len() as u64;
+            if sim.switches > 0 {
+                a.preempted_runs += 1;
+                a.distinct.insert(sim.schedule_hash ^ rep.history_hash.rotate_left(17));
+            }
+            for (k, v) in &sim.probes {
+                *a.probes.entry(k.to_string()).or_insert(0) += v;
+            }
+            if sim.end != End::Completed && rep.violation.is_none() {
+                a.harness_errors.push(format!("run {} ended {:?} after {} steps", run, sim.end, sim.steps));
+            }
+            if a.samples.len() < 2 && offset < 2 {
+                a.samples.push(json!({"run": run, "strategy": sched.strategy.name(), "steps": sim.steps, "switches": sim.switches,
+                    "preemptions": sim.preemptions.len(), "threads": sim.threads, "sim_nanos": sim.sim_nanos, "plan": plan.clone(),
+                    "faults_fired": rep.faults.len(), "observations": rep.observations.chars().take(600).collect::<String>()}));
+            }
+            preempts = sim.preemptions.clone();
+        } else {
+            a.distinct.insert(rep.history_hash);
+            if a.samples.len() < 2 && offset < 2 {
+                a.samples.push(json!({"run": run, "plan": plan.clone(), "observations": rep.observations.chars().take(600).collect::<String>()}));
+            }
+        }
+        let ignore = std::env::var("VERIF_TRIAGE_IGNORE").unwrap_or_default();
+        let rep_violation = match rep.violation {
+            Some(v) if !ignore.is_empty() && ignore.split(',').any(|c| c == v.class) => {
+                *a.counters.entry(format!("triage_ignored:{}", v.class)).or_insert(0) += 1;
+                None
+            }
+            x => x,
+        };
+        if let Some(v) = rep_violation {
+            let _ = std::fs::write(rundir.join(format!("stop.{}", offset)), format!("{}", run));
+            a.found.push(FoundJ { run, plan, preemptions: to_pj(&preempts), faults: rep.faults, violation: v, strategy: sched.strategy.name(), sched_seed: sched.seed });
+            break;
+        }
+        run += stride;
+    }
+    let out = rundir.join(format!("worker-{}.json", offset));
+    std::fs::write(&out, serde_json::to_vec(&a).unwrap()).expect("write worker result");
+    0
+}
+
+/// Explore (parent): fan seeds out over worker processes, merge, minimise, write evidence.
 pub fn run_batch(scn: &'static dyn DynScenario, opts: &BatchOpts) -> i32 {
     let t0 = Instant::now();
-    let next = Arc::new(AtomicU64::new(0));
-    let stop = Arc::new(AtomicBool::new(false));
-    let min_bad = Arc::new(AtomicU64::new(u64::MAX));
-    let agg = Arc::new(Mutex::new(Agg::default()));
-    let found: Arc<Mutex<Vec<FoundViolation>>> = Arc::new(Mutex::new(Vec::new()));
     let known = load_known();
-    let mut handles = Vec::new();
-    for _ in 0..opts.jobs {
-        let next = next.clone();
-        let stop = stop.clone();
-        let min_bad = min_bad.clone();
-        let agg = agg.clone();
-        let found = found.clone();
-        let seed = opts.seed;
-        let tier = opts.tier;
-        let max_runs = opts.max_runs;
-        let budget = opts.budget_s;
-        handles.push(std::thread::spawn(move || loop {
-            let run = next.fetch_add(1, Ordering::SeqCst);
-            if run >= max_runs || run > min_bad.load(Ordering::SeqCst) {
-                break;
-            }
-            if stop.load(Ordering::SeqCst) && run > min_bad.load(Ordering::SeqCst) {
-                break;
-            }
-            if t0.elapsed().as_secs_f64() > budget && min_bad.load(Ordering::SeqCst) == u64::MAX {
-                break;
-            }
-            let plan = plan_for(scn, seed, run, tier);
-            let sched = sched_for(scn, seed, run);
-            let rep = scn.execute_json(&plan, &sched);
-            let mut a = agg.lock().unwrap();
-            a.runs += 1;
-            *a.strategies.entry(sched.strategy.name()).or_insert(0) += 1;
-            if let FaultMode::Random { rate_pm, .. } = &sched.faults {
-                *a.fault_rate_runs.entry(format!("rate_pm={}", rate_pm)).or_insert(0) += 1;
-            }
-            for f in &rep.faults {
-                *a.faults.entry(f.kind.clone()).or_insert(0) += 1;
-            }
-            for (k, v) in &rep.counters {
-                *a.counters.entry(k.clone()).or_insert(0) += v;
-            }
-            let mut preempts = vec![];
-            if let Some(sim) = &rep.sim {
-                a.steps += sim.steps;
-                a.switches += sim.switches;
-                a.sim_nanos += sim.sim_nanos as u128;
-                a.max_steps_seen = a.max_steps_seen.max(sim.steps);
-                a.panics_seen += sim.panics.len() as u64;
-                if sim.switches > 0 {
-                    a.preempted_runs += 1;
-                    a.distinct.insert(sim.schedule_hash ^ rep.history_hash.rotate_left(17));
-                }
-                for (k, v) in &sim.probes {
-                    *a.probes.entry(k.to_string()).or_insert(0) += v;
-                }
-                if sim.end != End::Completed && rep.violation.is_none() {
-                    a.harness_errors.push(format!("run {} ended {:?} after {} steps", run, sim.end, sim.steps));
-                }
-                if a.samples.len() < 3 {
-                    a.samples.push(json!({"run": run, "strategy": sched.strategy.name(), "steps": sim.steps, "switches": sim.switches,
-                        "preemptions": sim.preemptions.len(), "threads": sim.threads, "sim_nanos": sim.sim_nanos, "plan": plan.clone(),
-                        "faults_fired": rep.faults.len()}));
-                }
-                preempts = sim.preemptions.clone();
-            } else {
-                a.distinct.insert(rep.history_hash);
-                if a.samples.len() < 3 {
-                    a.samples.push(json!({"run": run, "plan": plan.clone()}));
-                }
-            }
-            drop(a);
-            if let Some(v) = rep.violation {
-                min_bad.fetch_min(run, Ordering::SeqCst);
-                stop.store(true, Ordering::SeqCst);
-                found.lock().unwrap().push(FoundViolation { run, plan, sched, preemptions: preempts, faults: rep.faults, violation: v });
-            }
-        }));
+    let rundir = crate::verif_dir().join("target").join(format!("run-{}-{}-{}", scn.property(), scn.name(), std::process::id()));
+    let _ = std::fs::remove_dir_all(&rundir);
+    std::fs::create_dir_all(&rundir).expect("create run dir");
+    let exe = std::env::current_exe().expect("current exe");
+    let jobs = opts.jobs.max(1) as u64;
+    let mut children = vec![];
+    for k in 0..jobs {
+        let c = std::process::Command::new(&exe)
+            .args(["worker", scn.property(), "--scenario", scn.name(), "--tier", opts.tier.name(), "--seed", &opts.seed.to_string(),
+                "--runs", &opts.max_runs.to_string(), "--budget-s", &opts.budget_s.to_string(), "--offset", &k.to_string(),
+                "--stride", &jobs.to_string(), "--rundir", &rundir.to_string_lossy()])
+            .stdout(std::process::Stdio::null())
+            .spawn()
+            .expect("spawn worker");
+        children.push((k, c));
     }
-    for h in handles {
-        let _ = h.join();
+    let mut a = Agg::default();
+    for (k, mut c) in children {
+        let st = c.wait().expect("wait worker");
+        let f = rundir.join(format!("worker-{}.json", k));
+        match std::fs::read(&f).ok().and_then(|b| serde_json::from_slice::<Agg>(&b).ok()) {
+            Some(w) => merge_agg(&mut a, w),
+            None => a.harness_errors.push(format!("worker {} produced no result (status {:?})", k, st.code())),
+        }
     }
+    let _ = std::fs::remove_dir_all(&rundir);
     let explore_s = t0.elapsed().as_secs_f64();
-    let a = Arc::try_unwrap(agg).ok().unwrap().into_inner().unwrap();
-    let mut found = std::mem::take(&mut *found.lock().unwrap());
+    let mut found = std::mem::take(&mut a.found);
     found.sort_by_key(|f| f.run);
 
     let mut exit = 0;
@@ -493,8 +557,16 @@ pub fn run_batch(scn: &'static dyn DynScenario, opts: &BatchOpts) -> i32 {
         }
         exit = 2;
     }
-    if let Some(f) = found.into_iter().next() {
-        eprintln!("[{}] run {} violates: {} — {}", scn.property(), f.run, f.violation.class, f.violation.detail);
+    if let Some(fj) = found.into_iter().next() {
+        eprintln!("[{}] run {} violates: {} — {}", scn.property(), fj.run, fj.violation.class, fj.violation.detail);
+        let f = FoundViolation {
+            run: fj.run,
+            plan: fj.plan,
+            sched: { let mut s = sched_for(scn, opts.seed, fj.run); s.seed = fj.sched_seed; s },
+            preemptions: from_pj(&fj.preemptions),
+            faults: fj.faults,
+            violation: fj.violation,
+        };
         let (file, min_v) = minimise_and_write(scn, opts, f);
         match matches_known(&known, scn.property(), scn.name(), &min_v) {
             Some(k) => {
@@ -520,6 +592,25 @@ pub fn run_batch(scn: &'static dyn DynScenario, opts: &BatchOpts) -> i32 {
     exit
 }
 
+fn merge_agg(a: &mut Agg, w: Agg) {
+    a.runs += w.runs;
+    a.steps += w.steps;
+    a.switches += w.switches;
+    a.sim_nanos += w.sim_nanos;
+    a.preempted_runs += w.preempted_runs;
+    a.distinct.extend(w.distinct);
+    a.found.extend(w.found);
+    a.max_steps_seen = a.max_steps_seen.max(w.max_steps_seen);
+    a.panics_seen += w.panics_seen;
+    a.harness_errors.extend(w.harness_errors);
+    for (k, v) in w.strategies { *a.strategies.entry(k).or_insert(0) += v; }
+    for (k, v) in w.probes { *a.probes.entry(k).or_insert(0) += v; }
+    for (k, v) in w.faults { *a.faults.entry(k).or_insert(0) += v; }
+    for (k, v) in w.fault_rate_runs { *a.fault_rate_runs.entry(k).or_insert(0) += v; }
+    for (k, v) in w.counters { *a.counters.entry(k).or_insert(0) += v; }
+    for s in w.samples { if a.samples.len() < 4 { a.samples.push(s); } }
+}
+
 fn same_class(a: &Option<Violation>, class: &str) -> bool {
     a.as_ref().map(|v| v.class == class).unwrap_or(false)
 }
@@ -539,6 +630,7 @@ fn minimise_and_write(scn: &dyn DynScenario, opts: &BatchOpts, f: FoundViolation
     let attempt = |plan: &Value, pre: &[Preempt], faults: &[FaultDecision]| -> Option<(Violation, Vec<Preempt>, Vec<FaultDecision>)> {
         let sched = SchedSpec { seed: 0, strategy: Strategy::Default, replay: Some(pre.to_vec()), faults: FaultMode::Scripted(faults.to_vec()), trace: false };
         let rep = scn.execute_json(plan, &sched);
+        flush_epoch();
         if same_class(&rep.violation, &class) {
             let p = rep.sim.as_ref().map(|s| s.preemptions.clone()).unwrap_or_default();
             Some((rep.violation.unwrap(), p, rep.faults))
@@ -582,6 +674,7 @@ fn minimise_and_write(scn: &dyn DynScenario, opts: &BatchOpts, f: FoundViolation
                 for s in 0..6u64 {
                     let sched = SchedSpec { seed: dsim::rng::splitmix(s ^ f.sched.seed), strategy: Strategy::Random, replay: None, faults: FaultMode::Scripted(faults.clone()), trace: false };
                     let rep = scn.execute_json(&cand, &sched);
+                    flush_epoch();
                     if same_class(&rep.violation, &class) {
                         plan = cand.clone();
                         viol = rep.violation.clone().unwrap();
@@ -700,6 +793,7 @@ pub fn replay_file(scn: &dyn DynScenario, path: &str, verbose: bool) -> Result<O
     let rf: ReplayFile = serde_json::from_str(&s).map_err(|e| e.to_string())?;
     let sched = SchedSpec { seed: 0, strategy: Strategy::Default, replay: Some(from_pj(&rf.preemptions)), faults: FaultMode::Scripted(rf.faults.clone()), trace: verbose };
     let rep = scn.execute_json(&rf.plan, &sched);
+    flush_epoch();
     if let Some(sim) = &rep.sim {
         if !sim.unused_replay.is_empty() {
             return Err(format!("replay-diverged: {} recorded pre-emptions did not apply", sim.unused_replay.len()));
@@ -839,68 +933,107 @@ fn merge_evidence(prev: &mut Value, ev: &Value) {
     }
 }
 
-/// Determinism self-test: every run executed twice, full observation logs compared.
+/// Determinism self-test (worker side): each run executed twice in this process, then replayed
+/// from its recorded pre-emption list; fingerprints are written out so the parent can compare
+/// them across different worker counts (i.e. different process histories).
+pub fn selftest_worker(scn: &'static dyn DynScenario, seed: u64, runs: u64, offset: u64, stride: u64, rundir: &std::path::Path) -> i32 {
+    let mut fps: BTreeMap<u64, String> = BTreeMap::new();
+    let mut bad = 0u64;
+    let mut run = offset;
+    while run < runs {
+        let plan = plan_for(scn, seed, run, Tier::Quick);
+        let plan2 = plan_for(scn, seed, run, Tier::Quick);
+        if plan != plan2 {
+            eprintln!("NONDETERMINISM: plan differs for run {}", run);
+            bad += 1;
+        }
+        let mut sched = sched_for(scn, seed, run);
+        sched.trace = true;
+        let a = scn.execute_json(&plan, &sched);
+        flush_epoch();
+        let b = scn.execute_json(&plan, &sched);
+        flush_epoch();
+        let fa = fingerprint(&a);
+        let fb = fingerprint(&b);
+        if fa != fb {
+            eprintln!("NONDETERMINISM: run {} differs between two executions:\n  A: {}\n  B: {}", run, &fa[..fa.len().min(600)], &fb[..fb.len().min(600)]);
+            if let (Some(x), Some(y)) = (&a.sim, &b.sim) {
+                for (i, (e, f)) in x.trace.iter().zip(y.trace.iter()).enumerate() {
+                    if e.tid != f.tid || e.line != f.line || e.file != f.file || e.op != f.op {
+                        eprintln!("  first trace divergence at index {}: A=t{} {} {}:{}  B=t{} {} {}:{}", i, e.tid, e.op, e.file, e.line, f.tid, f.op, f.file, f.line);
+                        break;
+                    }
+                }
+            }
+            bad += 1;
+        } else if let Some(sim) = &a.sim {
+            let rs = SchedSpec { seed: 0, strategy: Strategy::Default, replay: Some(sim.preemptions.clone()), faults: FaultMode::Scripted(a.faults.clone()), trace: false };
+            let c = scn.execute_json(&plan, &rs);
+            flush_epoch();
+            let ok = c.sim.as_ref().map(|s| s.schedule_hash == sim.schedule_hash && s.unused_replay.is_empty()).unwrap_or(false) && c.observations == a.observations;
+            if !ok {
+                eprintln!("NONDETERMINISM: run {} does not replay from its pre-emption list (hash {:x} vs {:x})", run, sim.schedule_hash, c.sim.as_ref().map(|s| s.schedule_hash).unwrap_or(0));
+                bad += 1;
+            }
+        }
+        fps.insert(run, format!("{:016x}", crate::util::hash_str(&fa)));
+        run += stride;
+    }
+    let out = rundir.join(format!("fp-{}.json", offset));
+    std::fs::write(&out, serde_json::to_vec(&json!({"bad": bad, "fps": fps})).unwrap()).expect("write fp");
+    0
+}
+
+/// Determinism self-test (parent): two worker counts, fingerprints compared per run.
 pub fn selftest_determinism(scn: &'static dyn DynScenario, seed: u64, runs: u64, jobs: usize) -> i32 {
-    let next = Arc::new(AtomicU64::new(0));
-    let bad = Arc::new(AtomicU64::new(0));
-    let mut hs = vec![];
-    for _ in 0..jobs {
-        let next = next.clone();
-        let bad = bad.clone();
-        hs.push(std::thread::spawn(move || loop {
-            let run = next.fetch_add(1, Ordering::SeqCst);
-            if run >= runs {
-                break;
-            }
-            let plan = plan_for(scn, seed, run, Tier::Quick);
-            let plan2 = plan_for(scn, seed, run, Tier::Quick);
-            if plan != plan2 {
-                eprintln!("NONDETERMINISM: plan differs for run {}", run);
-                bad.fetch_add(1, Ordering::SeqCst);
-                continue;
-            }
-            let mut sched = sched_for(scn, seed, run);
-            sched.trace = true;
-            let a = scn.execute_json(&plan, &sched);
-            let b = scn.execute_json(&plan, &sched);
-            let fa = fingerprint(&a);
-            let fb = fingerprint(&b);
-            if fa != fb {
-                eprintln!("NONDETERMINISM: run {} differs between two executions:\n  A: {}\n  B: {}", run, &fa[..fa.len().min(400)], &fb[..fb.len().min(400)]);
-                if let (Some(x), Some(y)) = (&a.sim, &b.sim) {
-                    for (i, (e, f)) in x.trace.iter().zip(y.trace.iter()).enumerate() {
-                        if e.tid != f.tid || e.line != f.line || e.file != f.file || e.op != f.op {
-                            eprintln!("  first trace divergence at index {}: A=t{} {} {}:{}  B=t{} {} {}:{}", i, e.tid, e.op, e.file, e.line, f.tid, f.op, f.file, f.line);
-                            break;
+    let exe = std::env::current_exe().expect("current exe");
+    let mut all: Vec<BTreeMap<u64, String>> = vec![];
+    let mut bad = 0u64;
+    for (round, j) in [jobs.max(2) as u64, 3u64].iter().enumerate() {
+        let rundir = crate::verif_dir().join("target").join(format!("selftest-{}-{}-{}-{}", scn.property(), scn.name(), std::process::id(), round));
+        let _ = std::fs::remove_dir_all(&rundir);
+        std::fs::create_dir_all(&rundir).expect("create run dir");
+        let mut children = vec![];
+        for k in 0..*j {
+            children.push(std::process::Command::new(&exe)
+                .args(["worker", scn.property(), "--scenario", scn.name(), "--seed", &seed.to_string(), "--runs", &runs.to_string(),
+                    "--offset", &k.to_string(), "--stride", &j.to_string(), "--rundir", &rundir.to_string_lossy(), "--selftest"])
+                .spawn().expect("spawn"));
+        }
+        for mut c in children {
+            let _ = c.wait();
+        }
+        let mut m: BTreeMap<u64, String> = BTreeMap::new();
+        for k in 0..*j {
+            match std::fs::read(rundir.join(format!("fp-{}.json", k))).ok().and_then(|b| serde_json::from_slice::<Value>(&b).ok()) {
+                Some(v) => {
+                    bad += v["bad"].as_u64().unwrap_or(0);
+                    if let Some(o) = v["fps"].as_object() {
+                        for (r, f) in o {
+                            m.insert(r.parse().unwrap_or(0), f.as_str().unwrap_or("").to_string());
                         }
                     }
                 }
-                bad.fetch_add(1, Ordering::SeqCst);
-                continue;
-            }
-            // And the recorded pre-emption list must replay to the same interleaving.
-            if let Some(sim) = &a.sim {
-                let rs = SchedSpec { seed: 0, strategy: Strategy::Default, replay: Some(sim.preemptions.clone()), faults: FaultMode::Scripted(a.faults.clone()), trace: false };
-                let c = scn.execute_json(&plan, &rs);
-                let ok = c.sim.as_ref().map(|s| s.schedule_hash == sim.schedule_hash && s.unused_replay.is_empty()).unwrap_or(false)
-                    && c.observations == a.observations;
-                if !ok {
-                    eprintln!("NONDETERMINISM: run {} does not replay from its pre-emption list (hash {:x} vs {:x})", run, sim.schedule_hash, c.sim.as_ref().map(|s| s.schedule_hash).unwrap_or(0));
-                    bad.fetch_add(1, Ordering::SeqCst);
+                None => {
+                    eprintln!("HARNESS-ERROR: selftest worker {} produced nothing", k);
+                    bad += 1;
                 }
             }
-        }));
+        }
+        let _ = std::fs::remove_dir_all(&rundir);
+        all.push(m);
     }
-    for h in hs {
-        let _ = h.join();
+    let mut cross = 0u64;
+    for (r, f) in &all[0] {
+        if all[1].get(r) != Some(f) {
+            if cross < 5 {
+                eprintln!("NONDETERMINISM: run {} has different fingerprints under {} and 3 worker processes", r, jobs);
+            }
+            cross += 1;
+        }
     }
-    let b = bad.load(Ordering::SeqCst);
-    println!("selftest-determinism {} {}: runs={} (x2 + replay) divergent={}", scn.property(), scn.name(), runs, b);
-    if b == 0 {
-        0
-    } else {
-        2
-    }
+    println!("selftest-determinism {} {}: runs={} (each x2 in-process + replay from pre-emption list, and across 2 worker counts) divergent_in_process={} divergent_across_worker_counts={}", scn.property(), scn.name(), runs, bad, cross);
+    if bad == 0 && cross == 0 { 0 } else { 2 }
 }
 
 fn fingerprint(r: &RunReport) -> String {
